@@ -2,10 +2,10 @@
    The compile pipeline is the staged model of Model/Pipeline.v / Model/Obs.v, compared with the
    real passes on every run; every allocation the implementation produces is validated inside Coq
    against path liveness (Model/Check.v: alloc_ok, bind_ok).  This file collects the theorems the
-   validation rests on; the simulation theorem is in Proofs/SimProofs.v when present. *)
+   validation rests on. *)
 From Avo Require Import Base.Prelude.
 From stdpp Require Import gmap.
-From Avo Require Import Base.MaskSet Model.IR Model.RegFile Model.Liveness Model.Alloc Model.Cleanup Model.Pipeline Proofs.LivenessProofs Proofs.AllocProofs.
+From Avo Require Import Base.MaskSet Model.IR Model.RegFile Model.Liveness Model.Alloc Model.Cleanup Model.Pipeline Model.Sem Proofs.LivenessProofs Proofs.AllocProofs Proofs.SimProofs Proofs.SimLink Proofs.SimValidator.
 Open Scope N_scope.
 
 (* the liveness used by the allocator is exactly path liveness (C02), in particular it is complete:
@@ -23,3 +23,37 @@ Theorem bind_substitutes : forall rf al r,
      r' = r \/ exists pid p, al !! rid r = Some pid /\ lookup_id rf pid (rmask r) = Some p /\ r' = reg_of_preg p /\ rmask r' = rmask r /\ In p rf /\ p_idx p = id_index pid).
 Proof. intros rf al r. split; [apply bind_physical_untouched|apply bind_virtual]. Qed.
 Print Assumptions bind_substitutes.
+
+(* MAIN THEOREM.  `pr` lists, per instruction, the registers read, the registers written and the CFG
+   successors; `al` is an allocation.  If the validator accepts (it is evaluated inside Coq on every
+   allocation the implementation produces, check C01), then for EVERY instruction semantics `F` that
+   follows the CFG and supplies a value for each declared output (the C04 contract: an instruction
+   reads only what it declares and writes only what it declares), for every number of steps and all
+   register files that agree, through the allocation, on the byte classes live at the starting point
+   (in particular: all argument values), the program run with every virtual register in private
+   storage and the program run with the allocated registers go through the same program points with
+   the same memory, and agree on every live register byte: no value that can still be read is ever
+   overwritten. *)
+Theorem regalloc_preserves_semantics :
+  forall (val memt : Type) (F : nat -> list val -> memt -> list val * memt * option nat) (pr : prog_regs_t) (al : list (N * N)),
+  allocation_valid al pr = true ->
+  (forall j i vs m outs m' n, List.nth_error (P pr) j = Some i -> F j vs m = (outs, m', Some n) -> In n (m_succ i)) ->
+  (forall j i vs m outs m' npc, List.nth_error (P pr) j = Some i -> F j vs m = (outs, m', npc) -> List.length outs = List.length (m_defs i)) ->
+  exists r, liveness (liveness_fuel (p pr)) (p pr) = Some r /\
+  forall n j R R' m st1,
+    (forall l, LIn r j l -> R l = R' (rename (sigma_of al) l)) ->
+    mrun val memt F (P pr) n (j, R, m) = Some st1 ->
+    exists j1 R1 R1' m1, st1 = (j1, R1, m1)
+      /\ mrun val memt F (List.map (rename_instr (sigma_of al)) (P pr)) n (j, R', m) = Some (j1, R1', m1)
+      /\ (forall l, LIn r j1 l -> R1 l = R1' (rename (sigma_of al) l)).
+Proof. exact validated_allocation_preserves_semantics. Qed.
+Print Assumptions regalloc_preserves_semantics.
+
+(* non-vacuity: two values live across each other's definitions must get different registers; the
+   validator accepts a proper colouring and rejects sharing *)
+Example validator_example :
+  let v1 := {| rid := 65793; rmask := 15; rtag := 1 |} in let v2 := {| rid := 131329; rmask := 15; rtag := 1 |} in
+  let pr := [([], [v1], [Some 1%nat]); ([], [v2], [Some 2%nat]); ([v1; v2], [], [])] in
+  allocation_valid [(65793, 256); (131329, 512)] pr = true /\ allocation_valid [(65793, 256); (131329, 256)] pr = false.
+Proof. split; vm_compute; reflexivity. Qed.
+Print Assumptions validator_example.
